@@ -31,7 +31,7 @@ def allflags(rng, tier):
     return lines, meta
 
 def run(tier, seed):
-    return cpucheck.run(PROP, tier, seed, cpucheck.std_gen(FAMS, per_quick=12, per_thorough=5000), keep=KEEP, search_lines=allflags,
+    return cpucheck.run(PROP, tier, seed, cpucheck.std_gen(FAMS, per_quick=12, per_thorough=5000), keep=KEEP, search_lines=cpucheck.join_gens(allflags, cpucheck.sweep_gen(FAMS, nodev=False)),
                         rule="every JP/JR/DJNZ/CALL/RET/RST/PUSH/POP encoding (main, DD, FD tables) x structured random states "
                              "(F, B, PC, SP incl. 0x0000/0xFFFF, stack overlapping the instruction); real code vs extracted generated model")
 def replay(path):
